@@ -80,7 +80,7 @@ class P:
             "one nanosecond around multiples of 250s; explicit steps as plain seconds (integers, fractions), Prometheus durations, zero/negative/NaN/Inf and malformed "
             "spellings. The expected value is computed by the generator from the property text (defaults, same-instant, floor((end-start)/250s), positivity), independently of the "
             "model. cmd cases (one in ten): the real `query` command is run with --start / --end / --since / --step against a one-container daemon that records what it is "
-            "asked for; the resolved range must reach the daemon unchanged (whole seconds of start and end), bracketed by the clock readings before and after the run when "
+            "asked for; the resolved range must reach the daemon unchanged (whole seconds: start rounded down, end rounded up), bracketed by the clock readings before and after the run when "
             "it depends on now, and a malformed flag must fail the command. Non-trivial = at least one flag present; distinct = distinct request.")
     trusted = ["strconv.ParseFloat: executable fragment = [sign]digits[.digits] with at most 15 significant digits (exact Clinger path), inf/nan; other spellings are counted as "
                "outside_model_fragment and only checked against the generator's expectation", "time.Parse(RFC3339Nano) oracle instance Base/TimeFmt.v",
@@ -107,7 +107,7 @@ class P:
         k = rng.random()
         start = end = None
         if k < 0.75:
-            # explicit start and end in the past (nothing depends on the clock): the daemon is asked for exactly floor(start) .. floor(end)
+            # explicit start and end in the past (nothing depends on the clock): the daemon is asked for exactly floor(start) .. ceil(end)
             start = gen_instant_past(rng)
             end = start + rng.choice([0, 1, 7, 499, 500, 3600, 3607, 86400 + 13, rng.randrange(1, 10**6)]) * SEC + rng.choice([0, 0, 1, 500 * 10**6, 999999999])
             c["start"], _ = spell(rng, start)
@@ -137,7 +137,7 @@ class P:
         if bad:
             c["expect"] = "reject"
         elif start is not None:
-            c["expect"] = [start // SEC, end // SEC]
+            c["expect"] = [start // SEC, -(-end // SEC)]          # whole seconds: the start rounded down, the end rounded up (D35)
         return c
 
     def gen_range(self, rng):
